@@ -141,6 +141,23 @@ def classify_failed_check(desc):
     return 'verdict'
 
 
+def _run_group(cmd, cwd, env, timeout):
+    """Run in its own process group so that a timeout kills our cbmc children only."""
+    import signal
+    p = subprocess.Popen(cmd, cwd=cwd, env=env, stdout=subprocess.PIPE, stderr=subprocess.STDOUT, text=True,
+                         start_new_session=True)
+    try:
+        out, _ = p.communicate(timeout=timeout)
+        return p.returncode, out
+    except subprocess.TimeoutExpired:
+        try:
+            os.killpg(p.pid, signal.SIGKILL)
+        except OSError:
+            pass
+        out, _ = p.communicate()
+        return -9, out or ''
+
+
 def run_kani(scratch_path, crate, harness_names, jobs, harness_timeout, extra_z=(), wall_timeout=None, log=None):
     cmd = ['cargo', 'kani', '-p', crate, '-Z', 'function-contracts', '-Z', 'stubbing', '-Z', 'unstable-options']
     for z in extra_z:
@@ -153,15 +170,7 @@ def run_kani(scratch_path, crate, harness_names, jobs, harness_timeout, extra_z=
     env['CARGO_NET_OFFLINE'] = 'true'
     env.pop('RUSTFLAGS', None)
     t0 = time.time()
-    try:
-        p = subprocess.run(cmd, cwd=scratch_path, env=env, stdout=subprocess.PIPE, stderr=subprocess.STDOUT,
-                           text=True, timeout=wall_timeout)
-        out = p.stdout
-        rc = p.returncode
-    except subprocess.TimeoutExpired as e:
-        out = (e.stdout or b'').decode() if isinstance(e.stdout, bytes) else (e.stdout or '')
-        rc = -9
-        subprocess.run(['pkill', '-9', '-x', 'cbmc'])
+    rc, out = _run_group(cmd, scratch_path, env, wall_timeout)
     wall = time.time() - t0
     if log:
         with open(log, 'w') as f:
@@ -177,13 +186,9 @@ def run_playback_print(scratch_path, crate, harness, timeout, log=None):
            '--output-format', 'terse', '--harness-timeout', '%ds' % timeout]
     env = dict(os.environ)
     env['CARGO_NET_OFFLINE'] = 'true'
-    try:
-        p = subprocess.run(cmd, cwd=scratch_path, env=env, stdout=subprocess.PIPE, stderr=subprocess.STDOUT,
-                           text=True, timeout=timeout + 300)
-        out = p.stdout
-    except subprocess.TimeoutExpired:
-        subprocess.run(['pkill', '-9', '-x', 'cbmc'])
-        return None, ''
+    rc, out = _run_group(cmd, scratch_path, env, timeout + 300)
+    if rc == -9:
+        return None, out
     if log:
         with open(log, 'w') as f:
             f.write('$ ' + ' '.join(cmd) + '\n' + out)
